@@ -355,10 +355,10 @@ def oracle(case, out):
                     return ("oracle:port-mismatch", "port %d is neither the scheme default %s nor written in %r" % (port, dflt, region))
             if not iplit:
                 if host == b"":
-                    return ("oracle:host-empty", "accepted with an empty host")
+                    return ("oracle:no-host", "accepted with an empty host")
                 if not labels_ok(host):
                     if len(host) == 255 and host.endswith(b".") and labels_ok(host[:-1]):
-                        return ("oracle:host-empty-label:truncated-255", "host cut at 255 bytes ends with '.'")
+                        return ("oracle:truncated-host-empty-label", "host cut at 255 bytes ends with '.'")
                     return ("oracle:host-empty-label", "accepted host %r has an empty label" % host)
         # ---- (2) the canonical form re-parses to the same scheme, host, port, path
         same = f2 is not None and f2["sch"] == f1["sch"] and f2["host"] == host and f2["port"] == f1["port"] \
